@@ -117,6 +117,20 @@ def main():
     ok &= expect("suite: iteration stopping early rejected", "range-stops-early" in v.get(10, ()))
     ok &= expect("suite: iteration beyond stop rejected", "range-beyond-stop" in v.get(11, ()))
     ok &= expect("suite: misplaced event rejected", bool({"stream-ordered", "stream-between"} & set(v.get(12, ()))))
+    # ---- TleTrace ----------------------------------------------------------------------------------------------------
+    from checks.c12 import rec, fn, BASE, CORNER
+    l1 = "1 25544U 98067A   18124.55610684  .00001524  00000-0  30197-4 0  9997"
+    l2 = "2 25544  51.6421 236.2139 0003381  47.8509  47.6767 15.54198229111731"
+    good = {"k": "tle", "l1": list(l1), "l2": list(l2), "norad": 25544, "elnb": 999, "rev": 11173, "nd": 1524, "ndsgn": 1, "incl": 516421,
+            "raan": 2362139, "ecc": 3381, "argp": 478509, "ma": 476767, "mm": 1554198229, "epoch": [18, 124, 55610684]}
+    bad_elnb = dict(good, elnb=99)                       # element number read from 3 of its 4 columns
+    bad_sum = dict(good, l1=list(l1[:68] + "0"))          # wrong checksum accepted
+    name, mc, cl = tlc.wrap("TleTrace", {"Base": rec(BASE), "Corner": fn({k: set(list(v)[:1]) for k, v in CORNER.items()})}, name="MCTleTraceSelf")
+    cfg = "INIT TInit\nNEXT TNext\n" + cl + "INVARIANT Report\nCHECK_DEADLOCK FALSE\n"
+    v = verdicts("TleTrace", cfg, {"events": [good, bad_elnb, bad_sum]}, extra={name + ".tla": mc}, name=name)
+    ok &= expect("tle trace: correct reading accepted " + str(v.get(1)), 1 not in v)
+    ok &= expect("tle trace: wrong element number rejected", "element-number" in v.get(2, ()))
+    ok &= expect("tle trace: accepted text with a wrong checksum rejected", "accepted-invalid" in v.get(3, ()))
     return 0 if ok else 1
 
 
